@@ -271,7 +271,7 @@ func (ent cEnt) Walk(ctx context.Context,
 	if err != nil {
 		return nil, noEnt, err
 	}
-	if len(qids) != len(names) { // incomplete = failure to get new ent
+	if len(qids) != len(steps) { // incomplete = failure to get new ent
 		return qids, noEnt, Warning{"Incomplete walk result"}
 	}
 	// drop part of ent.path
